@@ -693,6 +693,21 @@ func (r *runner) roundtrip(msg message.Message) (*cqlclient.Recv, error) {
 	return r.cl.Roundtrip(frm, "", "c10", 20*time.Second)
 }
 
+// dropped: a read of a virtual table was not answered and the proxy has closed the client's connection - that is an
+// observation about the proxy (the read must be answered with its rows), not a failure of the harness.  The runner
+// goes on with a new connection.
+func (r *runner) dropped(s *selRow, mode, ssig string) bool {
+	if !r.cl.IsClosed() {
+		return false
+	}
+	r.res.note("reply", ssig, false, r.sample(s, mode, "no answer: the proxy closed the client's connection", "connection closed", "rows"))
+	if cl, err := r.e.StartedClient(primitive.ProtocolVersion4, ""); err == nil {
+		cl.Quiet = true
+		r.cl = cl
+	}
+	return true
+}
+
 func (r *runner) sample(s *selRow, mode, detail string, got, want interface{}) func() *sample {
 	return func() *sample {
 		return &sample{CQL: s.text, Mode: mode, Detail: detail, Got: got, Want: want, Cfg: r.cc.describe(),
@@ -1023,6 +1038,9 @@ func (r *runner) compareRows(s *selRow, mode string, o *obsRows, nodes []cnode, 
 func (r *runner) rows(s *selRow, mode string, rv *cqlclient.Recv, err error) *obsRows {
 	ssig := sig(s.feats, "mode="+mode)
 	if err != nil {
+		if r.dropped(s, mode, ssig) {
+			return nil
+		}
 		r.res.infra(fmt.Sprintf("%s %q on %s: %v", mode, s.text, r.proxyName(), err))
 		return nil
 	}
@@ -1078,6 +1096,9 @@ func (r *runner) runSelect(s *selRow, valueChecks bool) (q *obsRows) {
 	rv, err = r.roundtrip(&message.Prepare{Query: s.text})
 	r.res.count("selects_prepare", 1)
 	if err != nil {
+		if r.dropped(s, "prepare", sig(s.feats, "mode=prepare")) {
+			return
+		}
 		r.res.infra(fmt.Sprintf("prepare %q on %s: %v", s.text, r.proxyName(), err))
 		return
 	}
